@@ -27,7 +27,7 @@ INVS = ['NoEffectOutOfPhase', 'StrictNoFiller', 'RoleRespected']
 
 
 def write_cfg(name, consts, invariants=()):
-    d = dict(AuthGate='TRUE', RoleCheck='TRUE')
+    d = dict(AuthGate='TRUE', RoleCheck='TRUE', StaleAuthHandler='FALSE')
     d.update(consts)
     lines = ['CONSTANTS'] + [f'  {k} = {v}' for k, v in d.items()]
     lines += ['SPECIFICATION Spec', 'CHECK_DEADLOCK FALSE']
@@ -66,8 +66,10 @@ def main(ctx):
        expect='NoEffectOutOfPhase')
     mc(ctx, 'c06_sens2', dict(RoleCheck='FALSE'), ['RoleRespected'],
        expect='RoleRespected')
+    mc(ctx, 'c06_sens3', dict(StaleAuthHandler='TRUE'), ['NoEffectOutOfPhase'],
+       expect='NoEffectOutOfPhase')
     tab = table(ctx)
-    ctx.require(len(tab) == 2 * 9 * 24 * 2, f'table has {len(tab)} rows')
+    ctx.require(len(tab) == 2 * 10 * 24 * 2, f'table has {len(tab)} rows')
 
     # ---- 2a. real server, malicious raw client ----
     twin = G.run_server_case()
@@ -146,6 +148,62 @@ def main(ctx):
                               f'effect: {r["seen"]} {r["log"]}',
                               replay={'kind': 'server-pair', 'phase': phase,
                                       'pair': [a, b]})
+
+    # ---- 2a+. the authentication phase with real methods: a challenge
+    # outstanding (P3k: the model's P3), after the FAILURE that ended a
+    # keyboard-interactive attempt, after a password FAILURE, after an
+    # answered public key query (P3n: no exchange outstanding - 60..79 is
+    # "Authentication not in progress", even a response that would be right)
+    atwin = G.run_server_auth_case()
+    ctx.require(not atwin['closed'] and
+                atwin['seen'] == [6, 60, 51, 51, 60, 52, 91, 99],
+                f'server auth twin run unexpected: {atwin}')
+    atypes = {k: v for k, v in types.items() if k[1] == 'wellformed'}
+    atypes[('AUTH60', 'good-response')] = G.GOOD_RESPONSE
+    atypes[('AUTH60', 'response-wrong')] = (61, b'\x00\x00\x00\x01' +
+                                            b'\x00\x00\x00\x01x')
+    for phase in G.AUTH_PHASES:
+        for (cls, vname), (t, body) in sorted(atypes.items()):
+            r = G.run_server_auth_case(phase, t, body)
+            n += 1
+            ctx.count(('srv-auth', phase, cls, vname), nontrivial=True)
+            pred = tab.get(('server', G.MODEL_PHASE[phase], cls, True))
+            sig = {'module': 'Gate', 'role': 'server', 'phase': phase,
+                   'class': cls, 'variant': vname}
+            rep = {'kind': 'server-auth', 'phase': phase, 'type': t,
+                   'body': body.hex()}
+            same = (not r['closed'] and
+                    [x for x in r['seen'] if x != 3] == atwin['seen'] and
+                    r['log'] == atwin['log'])
+            # what the application was told before the connection ended
+            told = [e for e in r['log'] if e[0] != 'server_lost']
+            if pred in ('fatal', 'ignore', 'unimpl') or \
+                    (cls == 'AUTH60' and phase != 'P3k'):
+                if told != atwin['log'][:len(told)]:
+                    ctx.violation(dict(sig, clause='ActedOn'),
+                                  f'server {phase}: out-of-phase {cls}/{vname} '
+                                  f'(type {t}) reached the application: '
+                                  f'{told} (untampered: {atwin["log"]})',
+                                  replay=rep)
+                elif G.acted(r['emitted'], [x for x in atwin['emitted']
+                                            if x not in (1, 3)]):
+                    ctx.violation(dict(sig, clause='ActedOn'),
+                                  f'server {phase}: out-of-phase {cls}/{vname} '
+                                  f'(type {t}) was acted upon: the server '
+                                  f'emitted {r["emitted"]} (untampered: '
+                                  f'{atwin["emitted"]})', replay=rep)
+                elif not r['closed'] and not same:
+                    ctx.violation(sig, f'server {phase}: {cls}/{vname} took '
+                                  f'effect: seen={r["seen"]} log={r["log"]}',
+                                  replay=rep)
+                elif pred == 'fatal' and not r['closed']:
+                    ctx.divergence(f'server {phase} {cls}/{vname}: model '
+                                   f'fatal, code tolerated it')
+            if r['loop_exceptions']:
+                ctx.violation(dict(sig, loop=True),
+                              f'server {phase} {cls}/{vname}: exception '
+                              f'reached the event loop: '
+                              f'{r["loop_exceptions"][0]}', replay=rep)
 
     # ---- 2a'. cleartext phase and peers WITHOUT strict key exchange ----
     # the raw client itself sends the extra message during the first
